@@ -221,3 +221,35 @@ Fixpoint block_eqb (a b : block) : bool :=
    i-th cell of every column belongs to row i) *)
 Definition rids_of (r : req) : list N := map fst (hd [] r).
 Definition wf_reqb (k : kind) (r : req) : bool := block_eqb r (table_of (ncols k) (rids_of r)).
+
+(* a run of one worker *)
+Fixpoint srun (s : svc) (tr : list sact) : option (svc * list sev) :=
+  match tr with
+  | [] => Some (s, [])
+  | a :: tr' =>
+      match sstep s a with
+      | None => None
+      | Some (s', e1) => match srun s' tr' with None => None | Some (s'', e2) => Some (s'', e1 ++ e2) end
+      end
+  end.
+
+(* the continuation that empties a worker while the database keeps answering: let the Do that is out return,
+   then one flush (PlanFlush / timer, dial if needed, swapBuffers, Do, return) *)
+Definition drain (s : svc) : list sact :=
+  (match inflight s with
+   | Some po => (if p_sent po then [] else [SSend]) ++ [SDoReturn true]
+   | None => []
+   end) ++
+  [SPlan] ++
+  (if (if is_none (inflight s) then client s else true) then [] else [SDial true]) ++
+  [SSwap] ++
+  (if is_nil (results s) then [] else [SSend; SDoReturn true]).
+
+Definition is_srequest (a : sact) : bool := match a with SRequest _ _ _ => true | _ => false end.
+Definition pos_request (a : sact) : bool := match a with SRequest _ _ sz => Z.ltb 0 sz | _ => true end.
+Fixpoint dones (vs : list sev) : list (pid * bool) :=
+  match vs with
+  | [] => []
+  | VDone p _ ok :: t => (p, ok) :: dones t
+  | _ :: t => dones t
+  end.
